@@ -79,11 +79,11 @@ fn main() {
     }
     let tier = cli.tier;
     let mut rep = Report::new("C19", tier, "exploration");
-    rep.rule = "full grid: seeds {0..63 (quick) / 0..255 (thorough), 2^32-1, 2^64-1} x error rate {0, 0.3, 1} x latency rate {0, 0.5, 1} x latency range ms {(0,0),(5,5),(5,20),(20,5)} x 24 sequential requests; two equally seeded instances run side by side under virtual time and must make identical decisions and inject identical latencies. distinct = distinct (configuration, decision vector) pairs".into();
+    rep.rule = "full grid: seeds {0..63 (quick) / 0..255 (thorough), 2^32-1, 2^64-1} x error rate {0, 0.3, 1} x latency rate {0, 0.5, 1} x latency range ms {(0,0),(5,5),(5,20),(20,5),(1200,1800),(2000,2000),(500,2500),(61000,62000),(3600000,1)} x 24 sequential requests; two equally seeded instances run side by side under virtual time and must make identical decisions and inject identical latencies. distinct = distinct (configuration, decision vector) pairs".into();
     let mut seeds: Vec<u64> = (0..tier.pick(64u64, 256)).collect();
     seeds.push(u32::MAX as u64);
     seeds.push(u64::MAX);
-    let ranges = [(0u64, 0u64), (5, 5), (5, 20), (20, 5)];
+    let ranges = [(0u64, 0u64), (5, 5), (5, 20), (20, 5), (1200, 1800), (2000, 2000), (500, 2500), (61_000, 62_000), (3_600_000, 1)];
     let mut reported = std::collections::BTreeSet::new();
     let mut viol = |rep: &mut Report, kind: &str, cfg: String, detail: String| {
         if reported.insert(kind.to_string()) {
